@@ -135,6 +135,8 @@ def run(ck: Checker):
 
     ck.rule('C09-10', 'the collector survives a failing request: every call of per-request user code (preprocess, call) in a service loop is inside a try whose handler for Exception — with no narrower handler re-raising part of it first — binds the exception as that request\'s value and stays in the loop (the C04-1 obligations)', minimum=3)
     _c04.check_containment(ck, 'C09-10')
+    # ... nor by wrapping an upstream failure that already is a wrapper (RemoteException(RemoteException) raises)
+    _c04.check_wrap_arguments(ck, 'C09-10', ck.repo.func(WORKER, 'Worker._build_input_batches'))
     # ---------------------------------------------------------------- C09-3
     check_one_destination(ck, 'C09-3')
     ck.rule('C09-9', 'the preprocess hook is looked up on the worker object when the service loop starts, not cached by Worker.__init__ (ORIGIN)', minimum=2)
